@@ -3,7 +3,9 @@
 //!     new n <item> | slice k <item>*k | iter k <item>*k | set i <item> | mod l r <modifier>
 //!     | ask l r | lb l <pred> | lbr r <pred> | dbg
 //!   items:      integer (built-ins, Combinator via From<i64>, Affine) / string token (Concat, `_` = empty)
-//!   modifiers:  integer (ignored for the non-lazy kinds) / `as s` | `ap s` (Concat) / `a b` (Affine)
+//!               / `v:md` (MinAdd, MaxAdd, SumAdd, the Combinators: the item carries the pending lazy tag `md`
+//!               in every component; Flip: `bit:flag`, flag 0|1 = its pending-flip flag)
+//!   modifiers:  integer (ignored for the kinds with M = (), Flip included) / `as s` | `ap s` (Concat) / `a b` (Affine)
 //!   predicates: T | F | ge k | le k | fst <pred> | snd <pred> | np s | lenge k
 //! Output: one chunk per op, chunks separated by TAB:
 //!   `u` (returned unit) | `p` (panicked) | `i <item>` | `d <debug() string>` |
@@ -44,6 +46,14 @@ impl<'a> Toks<'a> {
         N::Err: Debug,
     {
         vh::p(self.next())
+    }
+    /// `v` or `v:md` (an item that carries a pending lazy tag of its own)
+    fn int_md(&mut self) -> (i64, i64) {
+        let s = self.next();
+        match s.split_once(':') {
+            Some((v, md)) => (vh::p(v), vh::p(md)),
+            None => (vh::p(s), 0),
+        }
     }
     fn string(&mut self) -> String {
         let s = self.next();
@@ -141,7 +151,10 @@ impl Kind for Sum<i64> {
 impl Kind for MinAdd<i64> {
     type M = i64;
     fn item(t: &mut Toks) -> Self {
-        MinAdd::new(t.int())
+        let (v, md) = t.int_md();
+        let mut x = MinAdd::new(v);
+        x.md = md;
+        x
     }
     fn modifier(t: &mut Toks) -> i64 {
         t.int()
@@ -156,7 +169,10 @@ impl Kind for MinAdd<i64> {
 impl Kind for MaxAdd<i64> {
     type M = i64;
     fn item(t: &mut Toks) -> Self {
-        MaxAdd::new(t.int())
+        let (v, md) = t.int_md();
+        let mut x = MaxAdd::new(v);
+        x.md = md;
+        x
     }
     fn modifier(t: &mut Toks) -> i64 {
         t.int()
@@ -171,7 +187,10 @@ impl Kind for MaxAdd<i64> {
 impl Kind for SumAdd<i64> {
     type M = i64;
     fn item(t: &mut Toks) -> Self {
-        SumAdd::new(t.int())
+        let (v, md) = t.int_md();
+        let mut x = SumAdd::new(v);
+        x.md = md;
+        x
     }
     fn modifier(t: &mut Toks) -> i64 {
         t.int()
@@ -194,8 +213,11 @@ type C3 = Combinator<C2, SumAdd<i64>>;
 impl Kind for C2 {
     type M = i64;
     fn item(t: &mut Toks) -> Self {
-        let v: i64 = t.int();
-        C2::from(v)
+        let (v, md) = t.int_md();
+        let mut x = C2::from(v);
+        x.0.md = md;
+        x.1.md = md;
+        x
     }
     fn modifier(t: &mut Toks) -> i64 {
         t.int()
@@ -216,8 +238,12 @@ impl Kind for C2 {
 impl Kind for C3 {
     type M = i64;
     fn item(t: &mut Toks) -> Self {
-        let v: i64 = t.int();
-        C3::from(v)
+        let (v, md) = t.int_md();
+        let mut x = C3::from(v);
+        (x.0).0.md = md;
+        (x.0).1.md = md;
+        x.1.md = md;
+        x
     }
     fn modifier(t: &mut Toks) -> i64 {
         t.int()
@@ -391,6 +417,60 @@ impl Kind for Affine {
     }
 }
 
+// ---------------------------------------------------------------- user item 3: Flip
+/// Number of one-bits of a range with the parameterless range modification "flip every bit".
+/// The modifier type is the zero-sized `()` (the default `M` of `SegtreeItem`), and still the item
+/// is lazy: `modify(&())` leaves a pending flip that `push` hands down to the children.
+#[derive(Clone, Default)]
+struct Flip {
+    ones: i64,
+    len: i64,
+    flip: bool,
+}
+impl Debug for Flip {
+    fn fmt(&self, f: &mut std::fmt::Formatter<'_>) -> std::fmt::Result {
+        write!(f, "{}", self.enc())
+    }
+}
+impl SegtreeItem<()> for Flip {
+    fn merge(left: &Self, right: &Self) -> Self {
+        Flip { ones: left.ones + right.ones, len: left.len + right.len, flip: false }
+    }
+    fn modify(&mut self, _m: &()) {
+        self.ones = self.len - self.ones;
+        self.flip = !self.flip;
+    }
+    fn push(&mut self, left: &mut Self, right: &mut Self) {
+        if self.flip {
+            left.modify(&());
+            right.modify(&());
+            self.flip = false;
+        }
+    }
+}
+impl Kind for Flip {
+    type M = ();
+    fn item(t: &mut Toks) -> Self {
+        let (b, fl) = t.int_md();
+        Flip { ones: b, len: 1, flip: fl != 0 }
+    }
+    fn modifier(t: &mut Toks) -> () {
+        let _: i64 = t.int();
+    }
+    fn enc(&self) -> String {
+        format!("{},{},{}", self.ones, self.len, self.flip as i64)
+    }
+    fn eval(p: &Pred, x: &Self) -> bool {
+        match p {
+            Pred::True => true,
+            Pred::False => false,
+            Pred::Fst(q) => eval_z(q, x.ones),
+            Pred::Snd(q) => eval_z(q, x.len),
+            _ => false,
+        }
+    }
+}
+
 // ---------------------------------------------------------------- the history runner
 fn items<T: Kind>(t: &mut Toks) -> Vec<T> {
     let k: usize = t.int();
@@ -507,6 +587,7 @@ fn main() {
             "comb3" => run::<C3>(&mut t),
             "concat" => run::<Concat>(&mut t),
             "affine" => run::<Affine>(&mut t),
+            "flip" => run::<Flip>(&mut t),
             other => {
                 eprintln!("harness: unknown kind {}", other);
                 std::process::exit(3)
